@@ -93,13 +93,13 @@ class ParsedAnsiControlSequenceString:
         '''
         Returns the formatted string
         '''
-        return self.formatted_str()
+        return self.formatted_str
 
     def __repr__(self) -> str:
         '''
         Returns the formatted string
         '''
-        return self.formatted_str()
+        return self.formatted_str
 
     @property
     def formatted_str(self) -> str:
